@@ -22,6 +22,8 @@ from .. import paths, simloop, symx, util
 from ..front import AnalysisError, src
 
 EXPLANATION = __doc__
+RACE_WHAT = 'one pass of the loop is an event race: the clock goes to the earliest of the sampled reaction, the requested time point, the delay queue and the volume clock, and exactly the event that won is carried out (%d value combinations evaluated)'
+
 ASSUMPTIONS = ['the generator word is uniformly distributed (its quality is not analysed)']
 
 
@@ -302,6 +304,10 @@ def check(ctx):
         sp_ = simloop.single_precision_decls(sl_.f)
         ctx.ob('R5.1-precision', key, not sp_, sl_.where, 'no variable of the simulation loop is declared single precision',
                '; '.join('%s (%s)' % (n_, sl_.loc(x_)) for n_, x_ in sp_[:3]))
+    for key in ('SSASimulator',):
+        sl_ = simloop.SimLoop(ctx, key)
+        pr_, n_ = simloop.event_race(sl_)
+        ctx.ob('R5.2-event-race', key, not pr_, sl_.where, RACE_WHAT % n_, '; '.join(pr_[:2]))
     rmod = prog.mod('random')
     sp_ = [(fn_.name, n_) for fn_ in rmod.tree.body if isinstance(fn_, ast.FunctionDef) for n_, _ in simloop.single_precision_decls(fn_)]
     ctx.ob('R5.1-precision', 'random', not sp_, 'bioscrape/random.pyx', 'no variable of the random primitives is declared single precision',
